@@ -24,13 +24,17 @@ const (
 	skReaderSkip = "ReaderSkipDecoder"
 	skTplCustom  = "SkipDecoderTpl/custom-buffer-reusing-iface"
 	skBinStack   = "Binary.Skip/input-in-a-local-array-on-the-goroutine-stack"
+	skBufLenient = "BufferReader.Skip/caller-implemented-reader-lenient-about-non-positive-requests"
+	skDecLenient = "SkipDecoder/caller-implemented-reader-lenient-about-non-positive-requests"
 )
 
 var memSkippers = []string{skBinary, skBufBytes, skDecBytesR, skBytesSkip, skTplCustom, skBinStack}
-var streamSkippers = []string{skBufStream, skDecStream, skReaderSkip}
-var allSkippers = []string{skBinary, skBufBytes, skDecBytesR, skBytesSkip, skTplCustom, skBinStack, skBufStream, skDecStream, skReaderSkip}
+var streamSkippers = []string{skBufStream, skDecStream, skReaderSkip, skBufLenient, skDecLenient}
+var allSkippers = []string{skBinary, skBufBytes, skDecBytesR, skBytesSkip, skTplCustom, skBinStack, skBufStream, skDecStream, skReaderSkip, skBufLenient, skDecLenient}
 
-func isStreamSkipper(s string) bool { return s == skBufStream || s == skDecStream || s == skReaderSkip }
+func isStreamSkipper(s string) bool {
+	return s == skBufStream || s == skDecStream || s == skReaderSkip || s == skBufLenient || s == skDecLenient
+}
 
 type skipOut struct {
 	StackMismatch bool // the stack-held input gave another result than the heap-held one
@@ -105,7 +109,7 @@ run:
 					o.NextByte = int(input[o.N])
 				}
 			}
-		case skBufBytes, skBufStream:
+		case skBufBytes, skBufStream, skBufLenient:
 			var r bufiox.Reader
 			if which == skBufBytes {
 				r = bufiox.NewBytesReader(input)
@@ -113,6 +117,9 @@ run:
 				er = NewEnvReader(input, env)
 				er.Need = skNeed
 				r = bufiox.NewDefaultReader(er.Src())
+				if which == skBufLenient {
+					r = lenientReader{customReader{r}}
+				}
 			}
 			br := thrift.NewBufferReader(r)
 			err := br.Skip(thrift.TType(t))
@@ -130,7 +137,7 @@ run:
 			}
 			br.Recycle()
 			r.Release(nil)
-		case skDecBytesR, skDecStream:
+		case skDecBytesR, skDecStream, skDecLenient:
 			var r bufiox.Reader
 			if which == skDecBytesR {
 				r = bufiox.NewBytesReader(input)
@@ -138,6 +145,9 @@ run:
 				er = NewEnvReader(input, env)
 				er.Need = skNeed
 				r = bufiox.NewDefaultReader(er.Src())
+				if which == skDecLenient {
+					r = lenientReader{customReader{r}}
+				}
 			}
 			d := thrift.NewSkipDecoder(r)
 			b, err := d.Next(thrift.TType(t))
